@@ -263,6 +263,7 @@ type seenReq struct {
 }
 
 type scripted struct {
+	slowFirstMs, slowMs int // chunked framing only: pause after the first chunk / between later chunks
 	status  int
 	hdrs    []hdr
 	body    []byte
@@ -292,6 +293,8 @@ type backends struct {
 	lns    []net.Listener
 	nconn  int
 	closed chan struct{}
+
+	chunkTimes []time.Time // when each chunk of a slow answer was written
 
 	tunDown  []byte      // bytes the backend sends after accepting an upgrade / CONNECT
 	tunUpLen int         // bytes it expects from the user
@@ -423,6 +426,28 @@ func (b *backends) serveRW(c io.ReadWriteCloser, raw net.Conn, route, id int) {
 			fmt.Fprintf(w, "Content-Length: %d\r\n\r\n", len(s.body))
 		case noBody:
 			w.WriteString("\r\n")
+		case s.framing == "chunked" && s.slowMs > 0:
+			// a slow, streamed answer: every chunk flushed on its own, its time noted
+			w.WriteString("Transfer-Encoding: chunked\r\n\r\n")
+			n := s.chunks[0]
+			for i := 0; i < len(s.body); i += n {
+				j := min(i+n, len(s.body))
+				fmt.Fprintf(w, "%x\r\n", j-i)
+				w.Write(s.body[i:j])
+				w.WriteString("\r\n")
+				b.mu.Lock()
+				b.chunkTimes = append(b.chunkTimes, time.Now())
+				b.mu.Unlock()
+				if w.Flush() != nil {
+					return
+				}
+				if i == 0 {
+					time.Sleep(time.Duration(s.slowFirstMs) * time.Millisecond)
+				} else {
+					time.Sleep(time.Duration(s.slowMs) * time.Millisecond)
+				}
+			}
+			w.WriteString("0\r\n\r\n")
 		case s.framing == "chunked":
 			w.WriteString("Transfer-Encoding: chunked\r\n\r\n")
 			writeChunked(w, s.body, s.chunks)
